@@ -4,7 +4,8 @@ LoginDevice reacts only to written bytes (connect() -> bytes, on_write(bytes) ->
 
   telnet flavour:  [silent until kicked n times] -> pre-banner + username prompt -> (line) -> password prompt
                    -> (line, not echoed) -> accept: banner/MOTD + shell prompt
-                                          | reject: "Login incorrect" + username prompt again, `max_tries` times,
+                                          | reject: "Login incorrect" + username prompt again (reject_to="pass": only the
+                                            password prompt again, like a line password), `max_tries` times,
                                             then close the session (after_max="close") or keep prompting ("reprompt")
   ssh flavour  (what the OpenSSH client prints on its tty): warnings -> [fatal message + exit]
                    -> [passphrase prompt `Enter passphrase for key '/path':` (3 tries, then falls through)]
@@ -107,7 +108,7 @@ class LoginDevice:
                  user_prompt=b"Username: ", pass_prompt=b"Password: ", phrase_prompt=b"Enter passphrase for key '/home/u/.ssh/id_rsa': ",
                  pre=b"", banner=b"", shell_prompt=b"r1#", nl=b"\n", echo=True, reject_msg=b"Login incorrect",
                  max_tries=3, after_max="close", needs_kick=0, fatal=None, ssh_user_host=b"admin@r1",
-                 phrase_tries=3, reprompt_nl=True):
+                 phrase_tries=3, reprompt_nl=True, reject_to="user"):
         self.flavour = flavour
         self.username, self.password, self.passphrase = username, password, passphrase
         self.user_prompt, self.pass_prompt, self.phrase_prompt = user_prompt, pass_prompt, phrase_prompt
@@ -115,6 +116,7 @@ class LoginDevice:
         self.reject_msg, self.max_tries, self.after_max = reject_msg, max_tries, after_max
         self.needs_kick, self.fatal, self.ssh_user_host = needs_kick, fatal, ssh_user_host
         self.phrase_tries, self.reprompt_nl = phrase_tries, reprompt_nl
+        self.reject_to = reject_to          # telnet: after a rejection prompt for the username again, or only the password
         self.state = "init"
         self.name = b""
         self.tries = 0
@@ -221,10 +223,13 @@ class LoginDevice:
             if self.tries >= self.max_tries and self.after_max == "close":
                 self.state, self.closed = "closed", True
                 return self._emit(parts)
-            self.state = "user"
             if self.reprompt_nl:
                 parts.append(("", self.nl))
-            parts.append(("uprompt", self.user_prompt))
+            if self.reject_to == "pass":
+                parts.append(("pprompt", self.pass_prompt))
+            else:
+                self.state = "user"
+                parts.append(("uprompt", self.user_prompt))
             return self._emit(parts)
         if st == "shell":
             return self._emit([("", self.nl), ("shell", self.shell_prompt)])
